@@ -320,7 +320,7 @@ Example concurrent_streams_bound_nonvacuous :
 Proof. vm_compute. reflexivity. Qed.
 
 (** 12. The ready loop ([Mux::ready]).  With the test in force since fix
-    d86ed70, when every hung-up connection in the loop is a backend kept for
+    50dae8f, when every hung-up connection in the loop is a backend kept for
     its undelivered bytes, "the loop continues" implies that some connection
     has READABLE or WRITABLE work, i.e. an I/O handler runs in the iteration:
     the loop cannot spin on bits that no handler consumes.  Before the fix it
